@@ -20,7 +20,9 @@ import StorageModel.C05.SelfW
 
   So a store may carry no collection at all, only plain ones, only reference-counted ones, both,
   several of each, a self-referential one, and any of them may live on a child store.  In addition
-  the child store of either family may be an EXTENDED store (`Schema.ext`).
+  the child store of either family may be an EXTENDED store (`Schema.ext`), and the symbol at each
+  end of each collection may be declared with a bucket key different from its name and under a
+  multi-segment path prefix (`Schema.naming`).
 
   State: the entity buckets (`ents`: which store holds which id; a child-store entity is a
   sub-bucket of the root store's entity bucket) and, per declared collection, the field buckets
@@ -48,13 +50,33 @@ inductive Coll
   | self (sd : Side) (c : Bool)
   deriving DecidableEq, Repr
 
-/-- a schema: the declared collections, and whether the child store of a family is an EXTENDED
+/-- how the symbol of one end of a collection is declared: `AddFkSymbolWithKey(name, key, linkedStore,
+    pre...)`.  `name` is what the store's registries (`store.links[name]`), `SetLinkedIds(name, …)` and
+    a `FieldChecker` speak about; the field bucket lives at `pre/key` inside the entity bucket of the
+    symbol's store (`EntitySymbol.GetPath()`), which need not be named like the symbol. -/
+structure Naming where
+  name : String
+  key : String
+  pre : List String := []
+  deriving DecidableEq, Repr
+
+def Naming.path (n : Naming) : List String := n.pre ++ [n.key]
+
+/-- the sub-bucket of a root entity bucket that holds a child store's data (`StoreDefinition.BasePath`) -/
+def childPath : String := "ext"
+
+/-- a schema: the declared collections; whether the child store of a family is an EXTENDED
     store (`StoreDefinition.Extended()`: its `FindById` finds every entity of the parent store,
-    with or without extension data).  Since fix c784f90 no modelled function depends on `ext`
-    (see `childConstraints`); the harness still wires the flag, so the correspondence checks that. -/
+    with or without extension data); and the NAMING of the set symbol at each end of each collection.
+    Since fix c784f90 no modelled function depends on `ext` (see `childConstraints`), and none depends
+    on `naming` (`naming_irrelevant`, C05/SchemaHist.lean): the link code reaches every field bucket
+    through `GetPath()`, so for a well-formed naming (`Schema.wf`: different symbols of a store have
+    different names and live in different, non-nested buckets) only WHERE the buckets are differs —
+    which is what the rendered dump shows (`Schema.bucketPath`) and the correspondence compares. -/
 structure Schema where
   colls : List Coll
   ext : Side → Bool := fun _ => false
+  naming : Nat → Side → Naming := fun i _ => { name := "f" ++ toString i, key := "f" ++ toString i }
 
 /-- the store whose entities are the side-`sd` refs of the collection's slot -/
 def Coll.storeAt : Coll → Side → Option Store
@@ -71,6 +93,34 @@ def Coll.sideOf (c : Coll) (x : Store) : Option Side :=
   if c.storeAt .A = some x then some .A
   else if c.storeAt .B = some x then some .B
   else none
+
+/-- where the field bucket of collection `i`'s side-`sd` symbol sits inside the ROOT store's entity
+    bucket (a child store's entity bucket is the sub-bucket `childPath`) -/
+def Schema.bucketPath (sc : Schema) (i : Nat) (c : Coll) (sd : Side) : List String :=
+  match c.storeAt sd with
+  | some x => (if x.child then [childPath] else []) ++ (sc.naming i sd).path
+  | none => []
+
+/-- every declared collection end: its store, its naming, its bucket path -/
+def Schema.ends (sc : Schema) : List (Store × Naming × List String) :=
+  (List.range sc.colls.length).flatMap fun i =>
+    match sc.colls[i]? with
+    | some c => [Side.A, Side.B].filterMap fun sd => (c.storeAt sd).map fun x => (x, sc.naming i sd, sc.bucketPath i c sd)
+    | none => []
+
+def pairwiseB {α : Type} (p : α → α → Bool) : List α → Bool
+  | [] => true
+  | x :: xs => xs.all (p x) && pairwiseB p xs
+
+/-- well-formed naming: names, keys and path segments are non-empty; a root store's symbol does not
+    live inside the child store's sub-bucket; two symbols of one store have different names; the
+    buckets of two symbols of one family are different and not nested in each other -/
+def Schema.wf (sc : Schema) : Bool :=
+  sc.ends.all (fun e => e.2.1.name != "" && e.2.1.key != "" && e.2.1.pre.all (· != "") &&
+      (e.1.child || e.2.1.path.head? != some childPath)) &&
+  pairwiseB (fun a b =>
+      !(a.1.side == b.1.side && (a.2.2.isPrefixOf b.2.2 || b.2.2.isPrefixOf a.2.2)) &&
+      !(a.1 == b.1 && a.2.1.name == b.2.1.name)) sc.ends
 
 section
 variable {K : Type} [KOrd K] [DecidableEq K]
